@@ -99,6 +99,19 @@ def run_case(ck, paths, aname, L, k, nt, idx):
             ck.violation("gaps-in-identical:%s:%s" % (kind, w or "undefined"),
                          "%d copies of one %s string (length %d, alphabet %s) with type %s, %d threads: row %d is %r... (%d gap characters overall)" % (
                              k, kind, L, aname, w, nt, bad[0], rows[bad[0]][:80], g), c2)
+    if evaluated and L * k <= 12000 and idx % 3 == 0:
+        # several application threads call kalign() on the identical copies at the same time
+        sf = ck.tmp(".seqs")
+        common.write_bytes(sf, "".join(s + "\n" for _ in range(k)))
+        # (guard-off build: the hook runtime keeps one run context and is not meant for concurrent calls)
+        r2, l2 = common.kvdrv(NOHOOK[0], ["parr %s %d %d 5" % (sf, rng.choice([4, 8, 12]), rng.choice([1, 2]))], scratch=ck.scratch, timeout=900, cpu=600)
+        c3 = dict(ctx, concurrent_callers=True)
+        if not ck.proc_violations(r2, c3, allow_rcs=(0,)):
+            pr = next((x for x in l2 if x.get("op") == "parr"), None)
+            ck.count("cases_with_concurrent_callers")
+            if pr is None or pr["ok"] != pr["callers"] or not pr["same"] or any(row != s for row in pr["rows"]):
+                ck.violation("gaps-in-identical:concurrent-callers", "%d threads calling kalign() at the same time on %d identical copies: %s" % (
+                    pr["callers"] if pr else -1, k, "calls failed" if pr and pr["ok"] != pr["callers"] else "results differ between callers or contain gaps"), c3)
     if evaluated:
         ck.evaluated((aname, L, k, hash(s) & 0xffffff))
         ck.count("cases_%s" % aname)
@@ -113,8 +126,12 @@ def run_case(ck, paths, aname, L, k, nt, idx):
             ck.sample({"alphabet": aname, "length": L, "copies": k, "threads": nt, "detected": kind, "string_prefix": s[:50]})
 
 
+NOHOOK = [None]
+
+
 def run(ck, tier):
     paths = build("asan")
+    NOHOOK[0] = build("rel", tag="relnohook", guard=False)
     sc = getattr(ck, "scale", 1.0)
     rng = ck.rng
     cases = []
@@ -149,6 +166,7 @@ def run(ck, tier):
 def replay(ck, doc):
     rp = doc["replay"]
     paths = build("asan")
+    NOHOOK[0] = build("rel", tag="relnohook", guard=False)
     run_case(ck, paths, rp["alphabet"], rp["L"], rp["copies"], rp["nthreads"], rp["idx"])
     with ck.lock:
         ck.nontrivial |= set(range(30))
